@@ -22,6 +22,10 @@ def since_fields(s):
     return relative, metric, remain, value
 
 
+def fields_of_epoch(full):
+    return (T.emod(full, 1 << 24), T.emod(T.ediv(full, 1 << 24), 1 << 16), T.emod(T.ediv(full, 1 << 40), 1 << 16))
+
+
 def S_(v):
     return newtype(v, "Since")
 
@@ -202,7 +206,8 @@ def m2_locks(S):
         S.prove(ctx, ob, f"{kind}_block_number_metric", base + [T.eq(metric, 0)],
                 T.and_(T.iff(imm, T.lt(syms["commit_number"].t, base_n)), T.iff(ok, T.not_(T.lt(syms["commit_number"].t, base_n))), T.not_(inv)))
         S.prove(ctx, ob, f"{kind}_epoch_metric", base + [T.eq(metric, 1)],
-                T.and_(T.iff(inv, T.not_(wf_inc)), T.implies(wf_inc, T.iff(imm, T.lt(T.mul(cnum, thr_den), T.mul(thr_num, cden))))), timeout_s=180)
+                T.and_(T.iff(inv, T.not_(wf_inc)), T.implies(wf_inc, T.iff(imm, T.lt(T.mul(cnum, thr_den), T.mul(thr_num, cden))))), timeout_s=180,
+                small=[T.le(x, 12) for x in (vn, vi, vl) + tuple(fields_of_epoch(syms["commit_epoch"].t)) + (tuple(fields_of_epoch(info_epoch)) if kind == "relative" else ())])
         ms = T.imin(T.mul(value, 1000), U64)
         if kind == "absolute":
             S.prove(ctx, ob, "absolute_timestamp_metric", base + [T.eq(metric, 2)], T.and_(T.iff(imm, T.lt(med_cur, ms)), T.not_(inv)))
